@@ -131,6 +131,88 @@ void h_zck_validate_data_checksum(void) {
 #endif
 }
 
+/* ---- control-only units (-DVERIF_CTL): arbitrary context, no list shape ---------------------------------------------
+ * Two fully nondeterministic chunk records; each `next` is NULL, the record itself or the other one (cycles included),
+ * index.first is NULL or the first record.  Every iteration of a walk over any list is an instance of an iteration here.
+ * What the harness fixes: the descriptor number (3), the index invariant of an entry (entry->zck is the context, digest buffer
+ * of the chunk checksum's size: precondition of validate_chunk), the type invariant 0 <= error_state <= 2. */
+typedef struct {
+    zckCtx any; zckChunk c[2]; int first_null, nx[2], ctype, htype;
+    int cctx_live, cchunk_typed, cfull_live, cfull_typed, watch_full;
+    size_t hu_total0, hu_k, k1; unsigned hu_seen0, hu_final0, hu_inits0;
+    g_off_t pos0[G_NFD]; size_t rd0[G_NFD]; int failed0; int log_type;
+} IN_scc;
+V_INPUT(IN_scc)
+
+static zckCtx *mk_scan_ctl(IN_scc *in) {
+    V_ASSUME(SPEC_HASH_VALID(in->ctype) && SPEC_HASH_VALID(in->htype));
+    V_ASSUME(in->hu_final0 < 1000 && in->hu_inits0 < 1000 && in->hu_seen0 < 1000 && (in->failed0 == 0 || in->failed0 == 1));
+    zckCtx *zck = malloc(sizeof(*zck));
+    V_ASSUME(zck != NULL);
+    *zck = in->any;
+    V_ASSUME(zck->error_state >= 0 && zck->error_state <= 2);
+    zck->fd = 3;
+    zck->chunk_hash_type.type = in->ctype; zck->chunk_hash_type.digest_size = SPEC_DIGEST_SIZE(in->ctype);
+    zck->hash_type.type = in->htype; zck->hash_type.digest_size = SPEC_DIGEST_SIZE(in->htype);
+    zck->full_hash_digest = malloc(zck->hash_type.digest_size);
+    V_ASSUME(zck->full_hash_digest != NULL);
+    zckChunk *r[2];
+    for(int i = 0; i < 2; i++) {
+        r[i] = malloc(sizeof(zckChunk));
+        V_ASSUME(r[i] != NULL);
+        *r[i] = in->c[i];
+        r[i]->zck = zck; r[i]->digest_size = SPEC_DIGEST_SIZE(in->ctype);
+        r[i]->digest = malloc(r[i]->digest_size);
+        V_ASSUME(r[i]->digest != NULL);
+        g_sc_valid0[i] = r[i]->valid;
+    }
+    for(int i = 0; i < 2; i++) r[i]->next = in->nx[i] == 0 ? NULL : in->nx[i] == 1 ? r[0] : r[1];   /* not even acyclicity is assumed */
+    zck->index.first = in->first_null ? NULL : r[0];
+    g_n1 = r[0]; g_n2 = r[1]; g_n3 = NULL; g_sc_valid0[2] = 0; g_scan_total = 0;
+    zck->check_chunk_hash.ctx = NULL; zck->check_chunk_hash.type = NULL; zck->check_full_hash.ctx = NULL; zck->check_full_hash.type = NULL;
+    if(in->cctx_live) { zck->check_chunk_hash.ctx = malloc(1); V_ASSUME(zck->check_chunk_hash.ctx != NULL); }
+    if(in->cchunk_typed) zck->check_chunk_hash.type = &zck->chunk_hash_type;
+    if(in->cfull_live) { zck->check_full_hash.ctx = malloc(1); V_ASSUME(zck->check_full_hash.ctx != NULL); }
+    if(in->cfull_typed) zck->check_full_hash.type = &zck->hash_type;
+    g_hu_hash = in->watch_full ? &zck->check_full_hash : &zck->check_chunk_hash;
+    g_hu_total = in->hu_total0; g_hu_k = in->hu_k; g_hu_seen = in->hu_seen0; g_hu_final = in->hu_final0; g_hu_inits = in->hu_inits0; g_k1 = in->k1;
+    for(int i = 0; i < G_NFD; i++) { g_fpos[i] = in->pos0[i]; g_rd_bytes[i] = in->rd0[i]; }
+    g_io_failed = in->failed0;
+    return zck;
+}
+
+void h_validate_checksums_ctl(void) {
+    IN_scc in = nondet_IN_scc();
+    zckCtx *zck = mk_scan_ctl(&in);
+    int err0 = zck->error_state;
+    int r = validate_checksums(zck, (zck_log_type)in.log_type);
+    V_ASSERT(r == 0 || (err0 == 0 && zck->error_state == 0), "C12,C09.validate_checksums.no_verdict_once_an_error_arose_seen_by_the_caller");
+    /* a two-entry list, both chunks judged valid, the second one longer than two blocks */
+    V_COVER(r == 1 && !zck->header_only && !zck->has_uncompressed_source && in.watch_full && in.nx[0] == 2 && in.nx[1] == 0 && g_n1->length > 0 && g_n1->comp_length > 0 && g_n2->comp_length > 2 * BUF_SIZE + 1 && g_n1->valid == 1 && g_n2->valid == 1 && g_sc_valid0[0] == -1);
+    /* all chunks match, data checksum does not */
+    V_COVER(r == -1 && !zck->header_only && !zck->has_uncompressed_source && in.watch_full && g_hu_final == in.hu_final0 + 1 && in.nx[0] == 0 && g_n1->length > 0 && g_n1->valid == -1 && g_sc_valid0[0] == 1);
+    /* a chunk that is cut short */
+    V_COVER(r == -1 && in.failed0 == 0 && g_io_failed == 1 && in.nx[0] == 0 && g_n1->valid == -1 && g_sc_valid0[0] == 1);
+    V_COVER(r == 1 && zck->header_only && in.nx[0] == 2 && g_n1->length > 0);
+    V_COVER(r == 1 && !zck->header_only && g_n1->length == 0 && in.nx[0] == 2 && in.nx[1] == 0);
+    V_COVER(r == 1 && zck->has_uncompressed_source && !zck->header_only && in.nx[0] == 2 && in.nx[1] == 0);
+    V_COVER(r == 1 && in.first_null);
+    V_COVER(r == 0 && err0 == 0 && zck->mode == ZCK_MODE_READ && zck->data_offset != 0 && g_rd_bytes[G_IX(zck->fd)] > in.rd0[G_IX(zck->fd)]);
+}
+
+void h_zck_validate_data_checksum_ctl(void) {
+    IN_scc in = nondet_IN_scc();
+    zckCtx *zck = mk_scan_ctl(&in);
+    int err0 = zck->error_state;
+    int r = zck_validate_data_checksum(zck);
+    V_ASSERT(r == 0 || (err0 == 0 && zck->error_state == 0), "C12,C09.zck_validate_data_checksum.no_verdict_once_an_error_arose_seen_by_the_caller");
+    V_COVER(r == 1 && !zck->has_uncompressed_source && in.watch_full && in.nx[0] == 2 && in.nx[1] == 0 && g_n1->comp_length > 0 && g_n2->comp_length > 2 * BUF_SIZE + 1);
+    V_COVER(r == -1 && !zck->has_uncompressed_source && in.nx[0] == 0 && g_n1->comp_length > 0);
+    V_COVER(r == 0 && err0 == 0 && zck->mode == ZCK_MODE_READ && !zck->has_uncompressed_source && g_rd_bytes[G_IX(zck->fd)] > in.rd0[G_IX(zck->fd)]);
+    V_COVER(r == 1 && zck->has_uncompressed_source); V_COVER(r == -1 && zck->has_uncompressed_source);
+    V_COVER(r == 1 && !zck->has_uncompressed_source && in.first_null);
+}
+
 #ifdef VERIF_NATIVE
 #include "replay_in.h"
 #endif
